@@ -30,7 +30,7 @@ CHECKS = {
  'C15': dict(design='4/C15', technique='TLA+ composition laws (PatternScore.tla); TLC validates score/indices/multi-column/match_list records',
    text="The composition laws (conjunction with negation, sum of positive atoms, indices appended per positive atom in atom order, column conjunction, stable descending sort of exactly the matching inputs) are TLA+ operators; every record of the real code (random patterns of 0-4 mixed atoms; Pattern::score, Pattern::indices with prior vector content, a permuted atom order, MultiPattern::score over 1-3 columns, Pattern::match_list and Atom::match_list over up to 60 items with score ties, all on one shared matcher whose case/normalisation settings are scrambled before each call) is consumed by the trace action, whose per-atom inputs come from direct Matcher calls on a matcher that only ever served that atom.",
    note="Trusted: the per-atom Matcher results (C01-C05 decide those); the private atom flags are read from Debug output; TLC."),
- 'C18': dict(design='4/C18', technique='TLA+ call-level Sort action (ParSort.tla) validated by TLC on recorded calls through the cfg-gated facade; TLC-exhaustive uniqueness/strict-weak-order lemmas',
+ 'C18': dict(design='4/C18', technique='TLA+ call-level Sort action (ParSort.tla) validated by TLC on recorded calls through the cfg-gated facade; complete runs of the real worker per thread count validated against the unique documented order (WorkerOrder.tla); TLC-exhaustive uniqueness/strict-weak-order lemmas',
    text="Every recorded call of the crate-private par_quicksort (reached through the cfg(nucleo_verif) facade; lengths 0..64 exhaustively x 7 arrangement families, up to 50 000 quick / 300 000 thorough, randomised McIlroy adversary inputs that reach the heapsort fallback, 1/2/4/8 pool threads, cancel flag raised before the call or by the comparator at its k-th invocation over a geometric grid) is consumed by the Sort action: output is a permutation of the input, sorted whenever 'not cancelled' is reported, 'cancelled' only if the flag was raised. ParSortMC proves by exhaustion (arrays <= 5) that the worker's comparison is a strict weak order whose sorted permutation is unique, which gives thread-count independence. Branch counters (cfg-gated) report which rarely taken branches ran.",
    note="Trusted: TLC; the comparator replica in the harness; the sort is judged at call granularity (internals exercised, not modelled)."),
  'C16': dict(design='4/C16', technique='TLA+ (CharsCheck.tla) over the complete dumped graph of the three public maps + probe-match disagreement sets; exhaustive over all 1,112,064 scalars',
